@@ -209,7 +209,7 @@ def gen_cases(tier, seed):
                                    rs=rs, xf=xf)
             for ni in (1, 2, 3, "sqrt", "log"):
                 for rs in range(RS[tier]):
-                    for feats in ("default", "msl"):
+                    for feats in ("default", "msl", "custom"):
                         yield dict(kind="rife", lens=lens, cell=cell, fam=1 if feats == "msl"
                                    else fam(), n_int=ni, rs=rs, feats=feats)
     for lens in _uneq_shapes(tier):
@@ -683,6 +683,14 @@ def _randseg(case, res):
     _check_cells(res, "randseg", o.value, exp)
 
 
+def value_range(x):
+    return x.max() - x.min()
+
+
+def first(x):
+    return x[0]
+
+
 def _rife(case, res):
     from sktime.transformations.panel.summarize._extract import RandomIntervalFeatureExtractor
     from sktime.utils.slope_and_trend import _slope as repo_slope
@@ -691,7 +699,12 @@ def _rife(case, res):
     v, X = _uni(case)
     feats = None if case["feats"] == "default" else [np.mean, np.std, repo_slope]
     fnames = ["mean"] if feats is None else ["mean", "std", "_slope"]
-    refs = {"mean": ref.mean, "std": ref.std, "_slope": ref.ls_slope}
+    refs = {"mean": ref.mean, "std": ref.std, "_slope": ref.ls_slope,
+            "value_range": lambda xs: max(xs) - min(xs), "first": lambda xs: xs[0]}
+    if case["feats"] == "custom":
+        # user-written single-array feature functions (no `axis` argument)
+        feats = [value_range, first, np.mean]
+        fnames = ["value_range", "first", "mean"]
     t = RandomIntervalFeatureExtractor(n_intervals=ni, random_state=rs, features=feats)
     f = call(lambda: t.fit(X))
     if not _is_equal(case["lens"]):
@@ -728,7 +741,7 @@ def _rife(case, res):
         exp = [refs[fn](row[0][s:e]) for row in v]
         got = [float(x) for x in Xt.iloc[:, j]]
         if not close(got, exp, rtol=1e-9, atol=1e-9):
-            res.violate("rife:%s:value" % fn.strip("_"), "feature of interval [%d,%d) differs" %
+            res.violate("rife:%s:value" % fn.strip("_").replace("value_range", "custom"), "feature of interval [%d,%d) differs" %
                         (s, e), expected=exp, observed=got)
             return
 
